@@ -13,6 +13,7 @@ use raw::{
     types::Point,
 };
 
+pub use super::cff::hint_verif_hooks::cff_hint_map_inserts;
 pub use super::glyf::verif_hooks::*;
 
 /// `outline::path::to_path` on caller supplied point, flag and contour arrays.
